@@ -93,12 +93,15 @@ typedef int TypeOneDRule;
 #ifndef TSG_NPNT
 #define TSG_NPNT 3
 #endif
-typedef struct { size_t domain_transform_a_size, conformal_asin_power_size; int dims, outs, npoints; } TSGC;
+typedef struct { size_t domain_transform_a_size, conformal_asin_power_size; int dims, outs, npoints, loaded; } TSGC;
 double g_scale; int g_nscaled; bool g_scaled_wrong; bool g_conf_applied, g_base_got_correction, g_base_called;
 int base_getNumDimensions(const TSGC *s){ return s->dims; }
 TypeOneDRule base_getRule(const TSGC *s){ return 0; }
 int base_getNumPoints(const TSGC *s){ return s->npoints; }
 int base_getNumOutputs(const TSGC *s){ return s->outs; }
+int base_getNumLoaded(const TSGC *s){ return s->loaded; }        /* 0 while nothing is loaded, otherwise the number of points */
+int base_getNumNeeded(const TSGC *s){ return s->loaded == 0 ? s->npoints : nondet_int(); }
+void base_integrateHierarchicalFunctions(const TSGC *s, double *w){ g_base_called = true; for (int i = 0; i < TSG_NPNT; i++) if (i < s->npoints) w[i] = nondet_double(); }
 const double *g_corr;
 void mapConformalWeights(const TSGC *s, int nd, int np, double w[]){ __CPROVER_assert(nd == s->dims && np == s->npoints, "C10 the conformal weights are computed for all points of the grid"); if (s->conformal_asin_power_size != 0) { g_conf_applied = true; g_corr = w; } }
 void base_integrate(const TSGC *s, double q[], const double *correction){ g_base_called = true; g_base_got_correction = (correction != 0) && (correction == g_corr); for (int k = 0; k < 2; k++) if (k < s->outs) q[k] = nondet_double(); }
@@ -111,16 +114,21 @@ void h_integrate(void){
   TSGC s; s.dims = 2; s.outs = nondet_int(); s.npoints = nondet_int();
   __CPROVER_assume(s.outs >= 0 && s.outs <= 2 && s.npoints >= 0 && s.npoints <= TSG_NPNT);
   s.domain_transform_a_size = nondet_bool() ? 2 : 0; s.conformal_asin_power_size = nondet_bool() ? 2 : 0;
+  s.loaded = nondet_bool() ? s.npoints : 0;
   double q[TSG_NPNT];
   g_nscaled = 0; g_scaled_wrong = false; g_conf_applied = false; g_base_got_correction = false; g_base_called = false; g_corr = 0;
 #if TSG_WHICH == 0
   TSG_integrate(&s, q);
   int n = s.outs;
   __CPROVER_assert(g_base_called && (g_base_got_correction == (s.conformal_asin_power_size != 0)), "C10 integrate(): the family integrates with the conformal correction exactly when a conformal transform is set");
-#else
+#elif TSG_WHICH == 1
   TSG_getQuadratureWeights(&s, q);
   int n = s.npoints;
   __CPROVER_assert(g_base_called && (g_conf_applied == (s.conformal_asin_power_size != 0)), "C10 getQuadratureWeights(): the conformal factor is applied exactly when a conformal transform is set");
+#else
+  TSG_integrateHierarchicalFunctions(&s, q);
+  int n = s.npoints;          /* one integral per point of the grid, loaded or not */
+  __CPROVER_assert(g_base_called, "C10 integrateHierarchicalFunctions(): the family computes the canonical integrals");
 #endif
   __CPROVER_assert(g_nscaled == (s.domain_transform_a_size != 0 ? n : 0) && !g_scaled_wrong, "C10 the quadrature scale of the linear transform multiplies every entry exactly once whenever a domain transform is set, with or without a conformal transform");
   __CPROVER_assert(0, "VACUITY-CANARY");
